@@ -31,21 +31,21 @@ CHECKS = {
  "C06": ("exploration", "receive-loop mirror over the real packetcache with generator-derived ground truth (cache tier)",
    "The harness plays the receive loop (Store, trigger rule, BitmapGet, Expect) against the real cache on generated arrival histories (loss, duplicates, reordering <= 256, wrap, restarts) and checks every NACK against its own record of what arrived (never names a received packet, never at/beyond the newest, at most once, steady losses are named), statistics self-consistency at every sample/reset point, and ToBitmap exactness. Held on the executions observed.",
    "The liveness clause is asserted only for steady histories whose generator guarantees the preconditions; the receive-loop tier runs the real readLoop/nackWriter/sendUpRTCP over real PeerConnections, ordered by three verif trace points in rtpconn and cross-checked with the NACKs the publisher receives.", "5/C06"),
- "C10": ("exploration", "linearizability checking (porcupine) of recorded AddClient/DelClient/SetLocked/read histories against a sequential admission model, with lock-site schedule perturbation, under -race",
+ "C10": ("exploration", "linearizability checking (porcupine) of recorded AddClient/DelClient/SetLocked/read histories against a sequential admission model, with lock-site schedule perturbation, under -race (second pass with a monitor-free perturbation-only mutex wrapper, so that the lock monitor's own synchronisation does not hide races)",
    "Short concurrent histories on one group per history, all configurations of max-clients x autolock x autokick x time window, a quarter of them with the description file made unreadable and repaired during the history (description reload with a fault), recorded at the call boundary and checked against the admission model; direct invariants (non-operators never exceed max-clients; a refused client is announced to nobody). Held on the schedules observed.",
-   "Schedules are sampled, not enumerated (perturbation 0-90 % at every instrumented lock operation); lock changes are issued only by threads holding a joined operator, as the protocol requires.", "5/C10"),
+   "Schedules are sampled, not enumerated (perturbation 0-90 % at every instrumented lock operation; the registry phase times each joiner to the moment its own group becomes expirable and holds it for up to 3 ms between registry lookup and insertion); lock changes are issued only by threads holding a joined operator, as the protocol requires.", "5/C10"),
  "C11": ("exploration", "effect-at-other-parties monitor over recorded websocket/HTTP event logs: 24 privileged message kinds x membership states x permission sets against the real server, with a FIFO action-queue barrier for logical quiescence",
    "Every privileged message kind (chat, captions, user messages, op/unop/present/unpresent/shutup/unshutup, kick, identify, lock/unlock, clearchat, setdata, subgroups, record/unrecord, maketoken/edittoken/listtokens, offer) is sent in every membership state (never joined, eight kinds of refused join, joined, left, kicked) under 20 permission sets, one fresh group per case; its effect is read at the OTHER parties (nonce at an observer, joined/user change at the target and all members, kicked + socket closed, probe joins after lock, RECORDING member, token store) and must appear iff the required permission is held; a refusal leaves every other party with no new event; token delegation (never more than held, own group, expiry), cross-group token edits/listing, revocation followed by retries (incl. bursts racing the revocation), WHIP over HTTP with wrong/missing bearer, and random 15-step sequences against a membership/permission model. Held on the cases run.",
    "Watchdogs (90 s) never produce a violation: interrupted scenarios are counted as undecided, more than 2 + 0.1 % of them makes the run inconclusive. includeSubgroups (ignored by the parser) and the 404 for an unknown WHIP bearer are accepted as refusals.", "5/C11"),
  "C13": ("exploration", "Go race detector + instrumented-mutex wait-for/lock-order monitor + exactly-once/FIFO/lost-wakeup checker over unbounded.Channel",
-   "Child processes run fake-client storms on the group API, real websocket clients with statistics pollers, WHIP and recording clients joining/closing/kicked, shutdown with every member kind, and producers vs galene's queue consumption pattern, under -race and with perturbation at every lock operation; race reports in the property's anchor files and actual wait-for cycles are violations. Held on the schedules observed.",
+   "Child processes run fake-client storms on the group API (with expiry sweeps racing joins to idle groups), real websocket clients with statistics pollers and members that change their data all the time, real PeerConnections published, recorded (operator toggles the real recorder) and torn down, WHIP sessions over HTTP, WHIP and recording clients joining/closing/kicked (also out of an autokick group when its last operator leaves), shutdown with every member kind, and producers vs galene's queue consumption pattern, under -race and with perturbation at every lock operation; every other repetition runs from a binary with a monitor-free mutex wrapper (the lock monitor's own synchronisation would hide races); race reports in the property's anchor files and actual wait-for cycles are violations. Held on the schedules observed.",
    "Deadlocks on channels/I-O are outside the wait-for graph (watchdog => inconclusive); 'eventually seen' restated as queue empty at quiescence.", "5/C13"),
  "C14": ("exploration", "event-fold monitor: each client's user list folded from add/change/delete vs Group.GetClients at logical quiescence",
-   "Real server in a child process, 4-12 websocket clients over 3 groups, 3 concurrent drivers issuing random membership/moderation/setdata actions, joins to a redirecting group, and leave/rejoin storms in which every client cycles through one group from its own goroutine; at check points (ping/pong barrier quiescence) every client's folded view must equal the true membership (ids, usernames, permissions, data); duplicate adds, deletes of absent ids, cross-group events and phantom members are violations. Held on the executions observed.",
+   "Real server in a child process, 4-12 websocket clients over 3 groups, 3 concurrent drivers issuing random membership/moderation/setdata actions, joins to a redirecting group, leave/rejoin storms across two groups (pipelined leave+join, residents changing their data all the time), and description files made unreadable for a moment while a stranger tries to join; at check points (ping/pong barrier quiescence) every client's folded view must equal the true membership (ids, usernames, permissions, data); duplicate adds, events that are certainly about another group, phantom and missing members are violations (stale deletes/changes for a client back in a group of the same name are ignored, as a client would). Held on the executions observed.",
    "Convergence is bounded progress: a scenario whose quiescence watchdog (30 s) fires is abandoned without a verdict; more than a few of them make the run inconclusive.", "5/C14"),
 
  "C07": ("exploration", "reference-model monitor over signalling events of real PeerConnections (offers' msid media sections, close/abort) at logical quiescence points",
-   "Real server in a child process; clients with real pion PeerConnections publish audio / video / audio+video / audio+two-video streams (first packets sent track by track) and subscribe with random request maps, per-stream requests, aborts, replacements (also chains X->Y->Z inside the 200 ms push delay, with and without media on Y), leaves, disconnects, kicks and unpresent; after every step each (subscriber, stream) pair is compared with the model of the property text; every offer's source/username/label is checked, closes must be justified and must reach everyone. Held on the executions observed.",
+   "Real server in a child process; clients with real pion PeerConnections publish audio / video / audio+video / audio+two-video streams (first packets sent track by track) and subscribe with random request maps, per-stream requests, aborts, replacements (also chains X->Y->Z inside the 200 ms push delay, with and without media on Y), slow answerers (250-450 ms) with late second video tracks and requests changed while an offer is outstanding, an operator's unpresent racing with the publisher's own fresh and replacing offers, leaves, disconnects, kicks and unpresent; after every step each (subscriber, stream) pair is compared with the model of the property text; every offer's source/username/label is checked, closes must be justified and must reach everyone. Held on the executions observed.",
    "rid-based simulcast publishers are not generated; per-stream requests and aborts are modelled as lasting until the next push (documented in the evidence assumptions).", "5/C07"),
 
  "C17": ("exploration", "request-matrix monitor: status / byte-level snapshots / sentinel and marker scanning of every response, plus a preservation model over authorised update sequences",
@@ -56,17 +56,17 @@ CHECKS = {
    "Real server in a child process; every sent message carries a unique nonce; at each quiescence point authenticity (source/username), the privileged flag, exact delivery sets for broadcast / addressed / bad-destination / spoofed / unpermitted messages, socket closure of spoofers, and the replayed history (<= 50 entries, order, clearchat variants, age) are judged against the sender-side log. Held on the executions observed.",
    "Permission-dependent clauses are asserted only in epochs where the sender's permissions did not change; history age asserted only beyond 3.5 s / below 0.5 s with max-history-age 2 s.", "5/C15"),
  "C19": ("exploration", "syscall monitor (strace -f -y) of the real server with a sentinel tree around its directories + validator agreement on generated strings",
-   "The server runs under strace while hostile names (.., //, backslash, %-encodings, NUL, symlink components) are used as group name, username (in the join message, inside a stateful token, as the sub of a signed JWT), token group, URL paths, recording path, static path and delete-form filename (raw hand-written HTTP); every file syscall is attributed to one input and resolved (lexically, through live symlinks, and by the returned fd): writes/unlinks/renames must stay inside the roots, no sentinel may be touched, served or modified; validGroupName/validUsername/parseGroupName/sanitise are compared with a reference predicate on 10^5-10^7 strings. Held on the inputs tried; four open known findings rooted in os.Root of the pinned go1.24.0.",
+   "The server runs under strace while hostile names (.., //, backslash, %-encodings, NUL, symlink components) are used as group name, username (in the join message, inside a stateful token, as the sub of a signed JWT), token group, URL paths, recording path, static path and delete-form filename (raw hand-written HTTP); recordings of hostile usernames, also four connections of one user at the same instant (numbered fallback names); every file syscall is attributed to one input and resolved (lexically, through live symlinks, and by the returned fd): writes/unlinks/renames must stay inside the roots, no sentinel may be touched, served or modified; validGroupName/validUsername/parseGroupName/sanitise are compared with a reference predicate on 10^5-10^7 strings. Held on the inputs tried; four open known findings rooted in os.Root of the pinned go1.24.0.",
    "Operator-placed symlinks inside the groups directory are observed, not judged (lexical confinement); system reads are allow-listed from a benign baseline run.", "5/C19"),
  "C20": ("exploration", "ground-truth frame list vs the produced WebM/Matroska file parsed with an independent EBML reader; root-cause attribution with a stand-alone copy of the pinned sample builder",
    "The real diskwriter is driven through conn.Up/UpTrack (no hooks) with hash-identified Opus/VP8/VP9/H264 frames under delivery histories (reordering, duplicates, gaps the cache can or cannot fill, seqno and timestamp wrap, sender reports at any point); every block must be byte-identical to a sent frame, unique, ordered, with non-decreasing timecodes, complete from the first keyframe when everything is recoverable, in a well-formed container that is closed on stop/departure; an end-to-end tier records a real pion publisher (multi-packet VP8 + Opus, seqno/timestamp wraps, four ways of ending, camera added after 'record') through the real server. Held on the sessions run; open known findings: four in the pinned jech/samplebuilder dependency (one of them kills the server), three in diskwriter's time origin handling.",
    "Violations are keyed by root cause; a samplebuilder key is given only if a repaired builder on the same packets yields a clean track and the trigger fired.", "5/C20"),
 
  "C16": ("fault_enumeration", "syscall-level crash and error enumeration with strace (SIGKILL / EIO / ENOSPC at every file syscall of one token operation) + fresh-process reload equivalence + unique-id append histories under -race",
-   "After every step of library, websocket and HTTP token histories (with external file edits) a fresh process must read what the live process honours, and revoked tokens never authorise again; concurrent conditional appenders/deleters: acknowledged appends present once in acknowledgement order, refused ones absent, stale tags refused; constant-size versions (differing in modification time only): acknowledged conditional updates form one chain; every file syscall of 8 operation shapes is killed on entry (old or new set, never partial) and failed with EIO/ENOSPC (live view == fresh view). Held on the histories, schedules and crash points enumerated.",
+   "After every step of library, websocket and HTTP token histories (with external file edits) a fresh process must read what the live process honours, and revoked tokens never authorise again; concurrent conditional appenders/deleters: acknowledged appends present once in acknowledgement order, refused ones absent, stale tags refused; constant-size versions (differing in modification time only): acknowledged conditional updates form one chain; signalling edittoken commands racing with HTTP token changes: a refused edit has no effect on what the running server honours; every file syscall of 8 operation shapes is killed on entry (old or new set, never partial) and failed with EIO/ENOSPC (live view == fresh view). Held on the histories, schedules and crash points enumerated.",
    "Process interruption at syscall granularity only: power loss (page cache loss, write reordering) is out of reach; constant-size writers replace a version only when it is 25 ms old (new inodes are stamped from the kernel's coarse clock), so that successive versions differ in modification time as the property presupposes.", "5/C16"),
  "C18": ("fault_enumeration", "racing conditional HTTP writers with unique-id appends + precondition header generator + concurrent file reader + strace crash/error enumeration of rewriteDescriptionFile",
-   "K concurrent GET/PUT-If-Match writers per object against the real server: acknowledged appends present once, refused absent, at most one success per tag, one tag never served with two bodies, constant-size versions form one chain of acknowledged updates, exactly one winner for If-None-Match:* creation, stale deletes refused; generated If-Match/If-None-Match values against a restricted RFC 7232 reading (HTTP and the etagMatch shim); a plain reader decodes the group file continuously while it is rewritten; every file syscall of 11 library update shapes is killed on entry / failed with EIO, ENOSPC: a fresh process sees old or new, never partial. Held on the schedules and crash points enumerated.",
+   "K concurrent GET/PUT-If-Match writers per object against the real server: acknowledged appends present once, refused absent, at most one success per tag, one tag never served with two bodies, constant-size versions form one chain of acknowledged updates, exactly one winner for If-None-Match:* creation, stale deletes refused; generated If-Match/If-None-Match values, alone and combined in one request, against a restricted RFC 7232 reading (HTTP and the etagMatch shim); a plain reader decodes the group file continuously while it is rewritten; every file syscall of 11 library update shapes is killed on entry / failed with EIO, ENOSPC: a fresh process sees old or new, never partial. Held on the schedules and crash points enumerated.",
    "Process interruption at syscall granularity only; only the clear precondition cases are asserted; constant-size writers pace themselves (25 ms) so that versions differ in modification time.", "5/C18"),
 
  "C12": ("exploration", "canary-arena parser fuzzing with recover() + grammar-based hostile websocket / HTTP / RTP workloads against the real server in child processes with liveness canaries and crash signatures",
